@@ -20,6 +20,11 @@ def hook(ch, ctx):
     n, kind = hist.reference(step["script"], sess)
     desc = dict(ctx["desc"], kind="c10")
     detail = {"scenario": ctx["scn"], "step_index": ctx["ti"], "impl": {k: res[k] for k in ("err", "code", "sent", "actions")}}
+    if hist.refused_locally(step):
+        # a request outside the specification's encodable values: an error, and nothing on the wire
+        if res["sent"] or res["bmc"] or res["err"] == "nil":
+            ch.violation(desc, dict(detail, what="a request the library refuses must end in an error with nothing transmitted"))
+        return
     if len(res["sent"]) != n:
         ch.violation(desc, dict(detail, what="expected %d transmissions, saw %d" % (n, len(res["sent"]))))
         return
